@@ -78,6 +78,9 @@ def mk_icmp6(rng, inner_len):
 
 def mk_ah(rng, next_header):
     icv_words = rng.choice([0, 1, 1, 2, 3, 6])
+    if rng.random() < 0.02:
+        # far end of the length octet: headers of 256 bytes and more, up to the 1 028 byte maximum
+        icv_words = rng.choice([61, 62, 63, 126, 127, 253, 254])
     plen = 1 + icv_words  # (plen+2)*4 = 12 + icv
     if rng.random() < 0.04:
         plen = 0
@@ -87,6 +90,9 @@ def mk_ah(rng, next_header):
 
 def mk_rawext(rng, name, next_header):
     units = rng.choice([0, 0, 0, 1, 2, 3])
+    if rng.random() < 0.02:
+        # far end of the length octet: 256 bytes and more, up to the 2 048 byte maximum
+        units = rng.choice([30, 31, 32, 63, 127, 128, 254, 255])
     h = bytes([next_header, units]) + rb(rng, 6 + units * 8)
     return Layer(name, h, [(name + ".len", 1, 1, "len"), (name + ".nh", 0, 1, "type")])
 
